@@ -192,4 +192,17 @@ META = {
                 "are not driven; small-order Ed25519 identity keys are outside the catalogue",
         "technique": "deterministic simulation: real protocol endpoints against a scripted adversarial transport, attack-catalogue enumeration, matching-conversation oracle",
     },
+    "C12": {
+        "text": "(a) The invitation as bytes in flight: every single-bit flip of the serialized group, field removal, type substitution and "
+                "foreign secret/signature is offered to the real GroupJoin on a real account metadata store; alterations of "
+                "identifier, secret, signature or type must be refused with nothing appended, the genuine invitation joins and the "
+                "account then acts under derived member/device keys. (b) A replication node (real WeshOrbitDB in replication mode "
+                "holding only FilterGroupForReplication's descriptor) joins the simulated network of a random group session: it must "
+                "use the same log addresses, hold every entry at the anti-entropy fixpoint, and open no metadata envelope, message "
+                "header or message payload of the session.",
+        "design_ref": "section 5, C12",
+        "note": "(a) is a pure-input clause run as a seeded enumeration; flips landing in fields outside the statement (link key "
+                "signature) are don't-care; the replication *service* (gRPC server, token auth) is not part of the simulation",
+        "technique": "deterministic simulation: invitation fault enumeration on a real store + replication node as a participant of the simulated network",
+    },
 }
